@@ -23,6 +23,10 @@ func c14Defs(n int) (msgs []schema.MessageEventDefinition, sigs []schema.SignalE
 		if i < n/2 {
 			d := schema.DefaultMessageEventDefinition()
 			d.SetMessageRef(&name)
+			if i%2 == 0 { // every other message definition names an operation: only a message for that operation matches it
+				op := schema.QName(c14Op(i))
+				d.OperationRefField = &op
+			}
 			msgs = append(msgs, d)
 		} else {
 			d := schema.DefaultSignalEventDefinition()
@@ -33,11 +37,24 @@ func c14Defs(n int) (msgs []schema.MessageEventDefinition, sigs []schema.SignalE
 	return
 }
 
+var c14Rot2 uint64
+
+func c14Op(i int) string { return fmt.Sprintf("op%d", i) }
+
 var c14Rot uint64 // the non-matching symbol is realised by a different event every time
 
 func c14Event(n, i int) event.IEvent {
 	if i >= n { // non-matching: another name, or a definition's name on an event of another kind
 		first, last := "d0", fmt.Sprintf("d%d", n-1) // d0 is a message definition when n >= 2, d<n-1> a signal definition
+		if n >= 2 { // d0 is a message definition that names an operation
+			switch atomic.AddUint64(&c14Rot2, 1) % 5 {
+			case 0:
+				return event.NewMessageEvent(first, nil) // its message without any operation
+			case 1:
+				other := "another-operation"
+				return event.NewMessageEvent(first, &other)
+			}
+		}
 		switch atomic.AddUint64(&c14Rot, 1) % 8 {
 		case 0:
 			return event.NewSignalEvent("nomatch")
@@ -65,6 +82,10 @@ func c14Event(n, i int) event.IEvent {
 	}
 	name := fmt.Sprintf("d%d", i)
 	if i < n/2 {
+		if i%2 == 0 {
+			op := c14Op(i)
+			return event.NewMessageEvent(name, &op)
+		}
 		return event.NewMessageEvent(name, nil)
 	}
 	return event.NewSignalEvent(name)
